@@ -26,6 +26,7 @@ def run(rep, index):
     numeric(rep, index)
     raw_bytes(rep, index)
     strings(rep, index)
+    histories(rep, index)
     rep.floor("public adders", 10)
     rep.assumptions += ["integers passed to add_* are >= 0 (the property's quantifier)",
                         "bytearray(str, 'windows-1252', 'replace') yields exactly one byte per character (codec library)",
@@ -197,6 +198,52 @@ def strings(rep, index):
                 rep.ob("C09.S13 padding-before-encoding", inst, ln is not None and _is_zero(Aff.of(ln) - N),
                        "encode_string applied to %r bytes, declared length %r" % (ln, B.norm(Aff.of(N))))
     rep.floor("string paths", 16)
+
+
+# ---------------------------------------------------------------- two-call histories
+def histories(rep, index):
+    """The same str written twice on one writer (any pair of string methods): the second write must
+    again be the exact image of the string -- hidden state kept between calls must not leak."""
+    meths = list(STRINGS)
+    for first in meths:
+        for second in meths:
+            def task(first=first, second=second):
+                ww = WriterWorld(index)
+                w, data = ww.new_writer(mode=False)
+                s = AbsStr()
+
+                def args_for(meth):
+                    a = [s]
+                    if STRINGS[meth][1]:
+                        a += [s.S, False]  # exact length: always accepted
+                    return a
+                st1, _ = ww.call(w, first, args_for(first))
+                n1 = len(data.events)
+                st2, _ = ww.call(w, second, args_for(second))
+                return ww, w, s, st1, st2, n1
+            for p, pst, val in B.explore(task):
+                B.set_path(p)
+                rep.count("history paths")
+                inst = "EoWriter.%s then %s (same string) path[%s]" % (first, second, _fmt(p))
+                if pst != "ok":
+                    rep.ob("C09.H0 total", inst, False, "escaped %r" % (val,))
+                    continue
+                ww, w, s, st1, st2, n1 = val
+                data = ww.data_of(w)
+                later = [e for e in data.events[n1:] if e[0] == "append"]
+                ok = st1 == "ok" and st2 == "ok" and len(later) == 1 and later[0][1][0] == "abs" and later[0][3] is not None
+                detail = "calls: %s/%s, second call appended %r" % (st1, st2, [e[1][0] for e in later])
+                if ok:
+                    buf = later[0][1][1]
+                    val_at, evs = later[0][3]
+                    n_enc = sum(1 for x in evs if x == "encode_string")
+                    want_enc = 1 if STRINGS[second][0] else 0
+                    exact = B.is_zero(Aff.of(val_at) - buf.c)
+                    ok = exact and n_enc == want_enc and B.is_zero(buf.L - s.S)
+                    detail = ("second write: byte = c + %r, encode_string applied %d time(s) to these bytes (expected %d)"
+                              % (B.norm(Aff.of(val_at) - buf.c), n_enc, want_enc))
+                rep.ob("C09.H1 second-write-of-a-string-is-its-exact-image", inst, ok, detail)
+    rep.floor("history paths", 16)
 
 
 def _is_zero(form):
